@@ -353,7 +353,7 @@ func c12Client(c *ev.Ctx) {
 			cl, err = p9.NewClient(fs.C, p9.WithMessageSize(o.req))
 			close(done)
 		}()
-		out, dump := quiesce.Await(done, 60*time.Second)
+		out, dump := quiesce.Await(done, wd)
 		n, isL := wire.ParseVersion(o.ver)
 		okOffer := isL && o.errno == 0 && o.eagain <= 7
 		key := fmt.Sprintf("cli:%s:ms%s:e%d:err%d", o.ver, offerClass(o.msize, o.req), minI(o.eagain, 2), o.errno)
@@ -448,7 +448,7 @@ func c12Exercise(c *ev.Ctx, cl *p9.Client, fs *fakesrv.Server, what string, tiny
 		root.Symlink("t", "s", 1, 2)
 		root.Mknod("k", 0644, 1, 2, 1, 2)
 	}()
-	out, dump := quiesce.Await(done, 60*time.Second)
+	out, dump := quiesce.Await(done, wd)
 	if out != quiesce.CondMet {
 		hang(c, out, dump, "C12:cli:call-hangs-after-negotiation", what)
 		return
